@@ -75,6 +75,7 @@ void verif_exclude(int pred, int tag) {
   if (!((VERIF_KF_ACTIVE >> tag) & 1u)) return;
   if ((VERIF_KF_CONFIRM >> tag) & 1u) verif_assume(pred != 0); else verif_assume(pred == 0);
 }
+void verif_shared(void *, unsigned long) {}
 std::ostream *verif_ostream(unsigned k) { return &ss(k); }
 std::istream *verif_istream(unsigned k) { ss(k).clear(); ss(k).seekg(0); return &ss(k); }
 unsigned long verif_stream_written(unsigned k) { return ss(k).str().size(); }
